@@ -135,9 +135,16 @@ def run(ctx):
             if lab == 'otherwise' or (lab != 0 and lab != 'otherwise'):
               same_arm.append(tgt)
       re_same = [g for g in re_g if any(cb.dominates(t, g.bb) for t in same_arm)]
+      # every test of self.reinscribe inside the loop, whether or not it decides reaching the builder (a `!self.reinscribe && ..` in
+      # front of the outpoint comparison only skips an error and is not a guard of the builder)
+      from ..facts import describe_cond
+      from ..intervals import fmt_desc as _fd
+      re_tests = [x for x in cb.reachable_from(l.bb) if cb.blocks[x]['t']['k'] == 'switch' and cb.reaches(x, l.bb) and cb.strictly_reaches(l.bb, x)
+                  and 'reinscribe' in _fd(describe_cond(cb, cb.blocks[x]['t']['d']))]
+      re_stray = [x for x in re_tests if not any(cb.dominates(t, x) for t in same_arm)]
       ctx.ob('R21.4', cb.n, 'same satpoint ⇒ error unless self.reinscribe', len(re_same) == 1 and re_same[0].pol is True, f'{[(g.atom, g.pol) for g in inner]}', where(cb, l.line))
       op_g = [g for g in inner if any(o == 'Eq' and p is False and 'outpoint' in names_of(a) and 'outpoint' in names_of(b_) for o, a, b_, p in g.forms())]
-      ctx.ob('R21.4', cb.n, 'same outpoint, different sat ⇒ always an error (self.reinscribe is consulted only for the same satpoint)', len(op_g) == 1 and len(re_g) == len(re_same),
+      ctx.ob('R21.4', cb.n, 'same outpoint, different sat ⇒ always an error (self.reinscribe is consulted only for the same satpoint)', len(op_g) == 1 and len(re_g) == len(re_same) and not re_stray,
              f'{[(g.atom, g.pol) for g in inner]}', where(cb, l.line))
   _r21_5(ctx, F, cb)
   _r21_6(ctx, F)
